@@ -21,7 +21,8 @@ from vlib import spec as S
 from vlib.prog import Program
 
 # K4 is the "router" class: never passed as a type, never in a type[...] annotation
-HIER = {"classes": [{"bases": []}, {"bases": [0]}, {"bases": [1]}, {"bases": []}, {"bases": []}]}
+# K3 is an ABC (its metaclass is ABCMeta): a method annotated with the METACLASS takes the class object K3
+HIER = {"classes": [{"bases": []}, {"bases": [0]}, {"bases": [1]}, {"bases": [], "abc": True}, {"bases": []}]}
 KN = ["K0", "K1", "K2", "K3"]
 ORIGINS1 = ["list", "Sequence", "Iterable", "set", "tuple"]
 TYPING_SPELL = {"list": typing.List, "dict": typing.Dict, "Sequence": typing.Sequence, "Iterable": typing.Iterable,
@@ -83,7 +84,7 @@ def case_strategy():
             st.one_of(st.just(["type", ["anyT"]]), any_inside().map(lambda g: ["type", ["gen", g[1], g[2]]])),
             # a union inside the annotation: type[A | B], type[Union[A, list[B]]]
             st.lists(inner_strategy(1), min_size=2, max_size=2, unique_by=repr).map(lambda ms: ["type", ["union", ms]]),
-            st.just(["type"]), st.just(["obj"]), st.sampled_from([["cls", "K0"], ["cls", "K1"], ["cls", "int"]]))
+            st.just(["type"]), st.just(["obj"]), st.sampled_from([["cls", "K0"], ["cls", "K1"], ["cls", "int"], ["cls", "ABCMeta"]]))
         ordinary = st.sampled_from([["cls", "K0"], ["cls", "K1"], ["cls", "int"], ["obj"], ["cls", "str"]])
         methods = []
         for i in range(nm):
@@ -239,6 +240,9 @@ def applicable1(ann, v, env):
         return True if len(ann) == 1 else sub(inner, ann[1], env)
     # ordinary class annotation
     if inner is not None:
+        if ann[1] == "ABCMeta":
+            # a metaclass annotation takes the classes it is the metaclass of
+            return isinstance(build_passed(v, env), env["ABCMeta"]) if v[0] == "clsobj" else (False if v[0] == "genobj" else None)
         return False if ann[1] not in ("type",) else None
     return isinstance(S.build_value(v, env), env[ann[1]])
 
@@ -279,6 +283,8 @@ def order1(a, b, env):
         return S.LESS
     if nb[0] == "type" and na[0] == "obj":
         return S.MORE
+    if (na[0] == "type" or nb[0] == "type") and ["cls", "ABCMeta"] in (na, nb):
+        return S.UNSPEC  # a metaclass against type[...]: not stated
     if na[0] == "type" or nb[0] == "type":
         return S.NONE
     return S.order(na, nb, env)
